@@ -262,6 +262,117 @@ struct Scenario {
     for (auto &n : s.notes) vf::msg("NOTE %s\n", n.c_str());
   }
 
+  // ---- C12: search-list expansion.  Reference written from resolv.conf(5) and the statement.
+  std::vector<std::string> ref_candidates(const std::string &name) {
+    std::vector<std::string> out; const Options &o = s.opt;
+    bool has_dot = name.find('.') != std::string::npos;
+    if (!(o.flags & ARES_FLAG_NOALIASES) && !has_dot) for (auto &l : s.alias_lines) { auto t = split_ws(l); if (t.size() >= 2 && ref::lower(t[0]) == ref::lower(name)) { out.push_back(t[1]); return out; } }
+    if ((!name.empty() && name.back() == '.') || (o.flags & ARES_FLAG_NOSEARCH)) { out.push_back(name); return out; }
+    size_t dots = (size_t)std::count(name.begin(), name.end(), '.'); size_t ndots = o.ndots >= 0 ? (size_t)o.ndots : 1;
+    std::vector<std::string> doms; if (o.domains_set) { std::istringstream ds(o.domains); std::string d; while (std::getline(ds, d, ',')) if (!d.empty()) doms.push_back(d); }
+    if (dots >= ndots) out.push_back(name);
+    for (auto &d : doms) out.push_back(d == "." ? name + "." : name + "." + d);
+    if (dots < ndots) out.push_back(name);
+    return out;
+  }
+  static std::string wire_key(const std::string &presentation) { ref::Name n; if (!ref::unescape_name(presentation, n)) return "?unparseable?"; return ref::lower(ref::escape_name(n)); }
+
+  void monitor_c12(RunResult &r) {
+    Sim &S = s; World &w = S.w;
+    if (has_faults || has_reconfig || has_cancel || has_inject) return;
+    bool conn_killed = false; for (auto &t : w.txs) if (t.outcome == O_GARBAGE || t.outcome == O_RESET || t.outcome == O_EOFMID) conn_killed = true;   // a sibling's malformed reply tears down the shared connection
+    for (auto &kv : S.reqs) { const Req &q = kv.second; if (q.calls != 1 || q.parent >= 0) continue;
+      bool srch = q.kind == "search" || q.kind == "lsearch", addr = q.kind == "getaddrinfo" || q.kind == "gethostbyname";
+      if (!srch && !addr) continue;
+      std::string nm = q.name; { std::string low = ref::lower(nm); if (low == "localhost" || low.find(".localhost") != std::string::npos || low.find(".onion") != std::string::npos) { r.counters["c12.excluded_special_names"]++; continue; } }
+      std::vector<std::string> cands = ref_candidates(nm); std::vector<std::string> keys; for (auto &c : cands) keys.push_back(wire_key(c));
+      // distinct question names the servers saw for this request, in order of first appearance
+      std::vector<std::string> seen; std::map<std::string, std::vector<const Tx *>> by_name;
+      for (size_t i = q.tx_at_start; i < w.txs.size(); i++) { const Tx &t = w.txs[i]; if (t.req != q.id || !t.decodable) continue; if (srch && t.qtype != (uint16_t)q.qtype) continue; if (!by_name.count(t.qname_lower)) seen.push_back(t.qname_lower); by_name[t.qname_lower].push_back(&t); }
+      if (cands.size() >= 2) { r.counters["c12.requests_with_2plus_candidates"]++; if (prop == "C12") r.nontrivial = true; }
+      std::string ctx = "request " + std::to_string(q.id) + " (" + q.kind + " \"" + nm.substr(0, 80) + "\"): expected candidates ["; for (auto &k : keys) ctx += k.substr(0, 60) + " "; ctx += "], servers saw ["; for (auto &x : seen) ctx += x.substr(0, 60) + " "; ctx += "]";
+      // order: what was asked is a prefix of the prescribed list
+      if (seen.size() > keys.size()) { fail(r, "C12.more-names-than-candidates", ctx); continue; }
+      bool prefix = true; for (size_t i = 0; i < seen.size(); i++) if (seen[i] != keys[i]) prefix = false;
+      if (!prefix) { fail(r, "C12.candidate-order", ctx); continue; }
+      r.counters["c12.orders_checked"]++;
+      if (!srch) continue;
+      // stop rule and final status, for plain searches where each candidate got exactly one decisive reply
+      bool simple = !conn_killed && S.opt.tries == 1 && w.servers.size() == 1 && q.timeouts == 0 && q.status != ARES_ETIMEOUT; for (auto &x : by_name) if (x.second.size() != 1) simple = false;   // (a timeout is the application advancing the clock past a deadline before reading the reply)
+      if (!simple) continue;
+      bool any_nodata = false; int expect_status = -2; size_t expect_n = keys.size(); bool undecided = false; int last = ARES_ENOTFOUND;
+      for (size_t i = 0; i < keys.size(); i++) {
+        if (i >= seen.size()) { if (expect_n == keys.size()) { /* a candidate was not asked although nothing stopped the search: could be unencodable */ undecided = true; } break; }
+        const Tx *t = by_name[keys[i]][0]; int oc = t->outcome; bool single_label = keys[i].find('.') == std::string::npos;
+        if (oc == O_ANSWER || oc == O_DUP || oc == O_EMPTY) { expect_status = ARES_SUCCESS; expect_n = i + 1; break; }
+        else if (oc == O_NXDOMAIN || oc == O_NXDOMAIN_SOA) last = ARES_ENOTFOUND;
+        else if (oc == O_NODATA || oc == O_NODATA_SOA) { any_nodata = true; last = ARES_ENODATA; }
+        else if (oc == O_SERVFAIL || oc == O_REFUSED) { if (single_label) { undecided = true; break; } expect_status = oc == O_SERVFAIL ? ARES_ESERVFAIL : ARES_EREFUSED; expect_n = i + 1; break; }
+        else { undecided = true; break; }   // silence, formerr, tc ...: not part of the stated stop rule
+      }
+      if (undecided) { r.counters["c12.stop_rule_undecided"]++; continue; }
+      if (expect_status == -2) expect_status = any_nodata ? ARES_ENODATA : last;
+      if (seen.size() != expect_n) { fail(r, "C12.stop-rule", ctx + "; expected the search to ask exactly " + std::to_string(expect_n) + " candidates"); continue; }
+      if (q.status != expect_status) { fail(r, "C12.final-status", ctx + "; final status " + ares_strerror(q.status) + ", expected " + ares_strerror(expect_status)); continue; }
+      r.counters["c12.stop_rules_checked"]++;
+    }
+  }
+
+  // ---- C13: address lookups return exactly the addresses the answers carry
+  void monitor_c13(RunResult &r) {
+    Sim &S = s; World &w = S.w;
+    std::map<uint32_t, const Prov *> bys; for (auto &p : w.provs) bys[p.serial] = &p;
+    auto keyname = [](std::string n) { n = ref::lower(n); if (!n.empty() && n.back() == '.') n.pop_back(); return n; };
+    for (auto &kv : S.reqs) { const Req &q = kv.second; if (q.calls != 1 || q.parent >= 0) continue;
+      std::string ctx = "request " + std::to_string(q.id) + " (" + q.kind + " " + q.name.substr(0, 60) + ")";
+      if (q.kind == "getaddrinfo" || q.kind == "gethostbyname") {
+        if (q.status != ARES_SUCCESS) continue;
+        std::multiset<std::string> got; for (auto &a : q.addrs) got.insert(std::to_string(a.family) + ":" + vf::hex(a.addr));
+        if (!q.serials.empty()) {
+          // from DNS answers: union of the A/AAAA records of the accepted answers, restricted to the requested family
+          std::multiset<std::string> want; std::map<std::string, uint32_t> want_ttl;
+          int fam_seen4 = 0, fam_seen6 = 0;
+          for (uint32_t ser : q.serials) { auto it = bys.find(ser); if (it == bys.end() || !it->second->genuine) continue; const Prov &p = *it->second; for (size_t i = 0; i < p.addrs.size(); i++) { int f = p.addrs[i].first; if (q.family == AF_INET && f != AF_INET) continue; if (q.family == AF_INET6 && f != AF_INET6) continue; want.insert(std::to_string(f) + ":" + vf::hex(p.addrs[i].second)); want_ttl[std::to_string(f) + ":" + vf::hex(p.addrs[i].second)] = p.addr_ttls[i]; if (f == AF_INET) fam_seen4++; else fam_seen6++; } }
+          for (auto &a : q.addrs) { if (q.family == AF_INET && a.family != AF_INET) fail(r, "C13.wrong-family-returned", ctx + " asked for IPv4 and got an address of family " + std::to_string(a.family)); if (q.family == AF_INET6 && a.family != AF_INET6) fail(r, "C13.wrong-family-returned", ctx + " asked for IPv6 and got an address of family " + std::to_string(a.family)); }
+          if (q.kind == "gethostbyname") {
+            // a hostent holds one family: exactly the answers of one of the families present
+            std::multiset<std::string> w4, w6; for (auto &x : want) (x[0] == '2' && x[1] == ':' ? w4 : w6).insert(x);
+            if (got != w4 && got != w6 && got != want) fail(r, "C13.hostent-addresses-differ", ctx + ": hostent has " + std::to_string(got.size()) + " addresses, answers carry " + std::to_string(w4.size()) + " IPv4 / " + std::to_string(w6.size()) + " IPv6");
+          } else {
+            if (got != want) { std::string d; for (auto &x : want) if (!got.count(x)) { d = "missing " + x; break; } if (d.empty()) for (auto &x : got) if (want.count(x) < got.count(x)) { d = "extra or duplicated " + x; break; } fail(r, "C13.addrinfo-addresses-differ", ctx + ": " + d + " (result " + std::to_string(got.size()) + ", answers " + std::to_string(want.size()) + ")"); }
+            for (auto &a : q.addrs) { if (a.port != q.port) fail(r, "C13.port", ctx + ": node port " + std::to_string(a.port) + ", asked " + std::to_string(q.port)); auto it = want_ttl.find(std::to_string(a.family) + ":" + vf::hex(a.addr)); if (it != want_ttl.end() && S.opt.qcache <= 0 && a.ttl != (int)it->second) fail(r, "C13.ttl", ctx + ": node ttl " + std::to_string(a.ttl) + ", record ttl " + std::to_string(it->second)); }
+          }
+          r.counters["c13.dns_results_checked"]++; if (q.addrs.size() >= 2 && prop == "C13") r.nontrivial = true; if (!q.cnames.empty() && prop == "C13") { r.nontrivial = true; r.counters["c13.with_cname_chain"]++; }
+        } else if (!q.addrs.empty()) {
+          // no server data involved: hosts file, literal, or loopback rule
+          std::string k = keyname(q.name); std::multiset<std::string> hosts; bool in_hosts = false;
+          for (auto &l : S.hosts_lines) { auto t = split_ws(l); if (t.size() < 2) continue; for (size_t i = 1; i < t.size(); i++) if (keyname(t[i]) == k) { Addr a; if (Addr::parse(t[0], a)) { in_hosts = true; if ((q.family == AF_INET && a.family != AF_INET) || (q.family == AF_INET6 && a.family != AF_INET6)) continue; hosts.insert(std::to_string(a.family) + ":" + vf::hex(Bytes((const char *)a.b, a.family == AF_INET ? 4 : 16))); } } }
+          Addr lit; bool literal = Addr::parse(q.name, lit);
+          if (in_hosts && !literal && k != "localhost") {
+            // c-ares documents that related hosts-file lines (sharing a name or an address) are merged into one entry:
+            // lower bound = addresses on lines naming the host, upper bound = addresses of the merged (transitively related) lines
+            std::set<std::string> names{k}, ips; std::multiset<std::string> closure; bool grew = true;
+            while (grew) { grew = false; for (auto &l : S.hosts_lines) { auto t = split_ws(l); if (t.size() < 2) continue; bool rel = ips.count(t[0]) > 0; for (size_t i = 1; i < t.size(); i++) if (names.count(keyname(t[i]))) rel = true; if (!rel) continue; if (ips.insert(t[0]).second) grew = true; for (size_t i = 1; i < t.size(); i++) if (names.insert(keyname(t[i])).second) grew = true; } }
+            for (auto &ip : ips) { Addr a; if (!Addr::parse(ip, a)) continue; if ((q.family == AF_INET && a.family != AF_INET) || (q.family == AF_INET6 && a.family != AF_INET6)) continue; closure.insert(std::to_string(a.family) + ":" + vf::hex(Bytes((const char *)a.b, a.family == AF_INET ? 4 : 16))); }
+            std::set<std::string> lower(hosts.begin(), hosts.end()), gotset(got.begin(), got.end());
+            for (auto &x : got) if (!closure.count(x)) fail(r, "C13.hosts-file-address-invented", ctx + ": " + x + " is not an address of this host (or of a related line) in the hosts file");
+            if (q.kind == "getaddrinfo") { for (auto &x : lower) if (!gotset.count(x)) fail(r, "C13.hosts-file-address-dropped", ctx + ": " + x + " is listed for this name and requested family in the hosts file but missing from the result"); for (auto &x : gotset) if (got.count(x) > 1) fail(r, "C13.hosts-file-address-duplicated", ctx + ": " + x); }
+            r.counters["c13.hosts_results_checked"]++;
+          }
+        }
+      } else if (q.kind == "gethostbyaddr" || q.kind == "getnameinfo") {
+        // the question must be exactly the reverse-map name of the address
+        Bytes a = S.req_addr(q); std::string want;
+        if (a.size() == 4) want = std::to_string((unsigned char)a[3]) + "." + std::to_string((unsigned char)a[2]) + "." + std::to_string((unsigned char)a[1]) + "." + std::to_string((unsigned char)a[0]) + ".in-addr.arpa";
+        else { static const char *hx = "0123456789abcdef"; for (int i = 15; i >= 0; i--) { want += hx[(unsigned char)a[(size_t)i] & 15]; want += '.'; want += hx[((unsigned char)a[(size_t)i] >> 4) & 15]; want += '.'; } want += "ip6.arpa"; }
+        for (size_t i = q.tx_at_start; i < q.tx_at_end && i < w.txs.size(); i++) { const Tx &t = w.txs[i]; if (t.req != q.id || !t.decodable || t.qtype != ref::T_PTR) continue; if (t.qname_lower != want) fail(r, "C13.reverse-name", ctx + ": asked the server for " + t.qname_lower + ", the reverse-map name is " + want); r.counters["c13.reverse_names_checked"]++; }
+        if (q.status == ARES_SUCCESS && !q.serials.empty()) { std::set<std::string> targets; for (uint32_t ser : q.serials) { auto it = bys.find(ser); if (it != bys.end() && it->second->genuine) for (auto &n : it->second->ptr_names) targets.insert(ref::lower(n)); }
+          if (!q.canon.empty() && !targets.count(ref::lower(q.canon))) fail(r, "C13.reverse-result-not-a-ptr-target", ctx + ": returned " + q.canon);
+          if (q.kind == "gethostbyaddr") for (auto &n : q.names) if (!targets.count(ref::lower(n))) fail(r, "C13.reverse-alias-not-a-ptr-target", ctx + ": alias " + n); }
+      }
+    }
+  }
+
   // ---- C08: soundness of cache hits (a miss is always allowed)
   void monitor_c08(RunResult &r) {
     Sim &S = s; World &w = S.w;
@@ -318,6 +429,8 @@ struct Scenario {
     monitor_c05(r);
     monitor_c20(r);
     if (prop == "C08" || prop == "C05") monitor_c08(r);
+    if (prop == "C12" || prop == "C01") monitor_c12(r);
+    if (prop == "C13") monitor_c13(r);
     summarise(r);
     // non-triviality for C01 (DESIGN 5, C01)
     size_t nreq = 0, search2 = 0; for (auto &kv : S.reqs) if (kv.second.started) nreq++;
